@@ -16,6 +16,7 @@ CONSTANTS Family,     \* "mj_basic" "mj_restricted" "mj_qerr" "ml" "sj_shape" "s
           Width       \* "quick" | "thorough": size of the allow-list alphabet of mj_restricted
 
 VersionsQuick      == {"1", "10"}
+VersionsQuick1     == {"10"}
 VersionsThorough   == {"1", "2", "3", "6", "7", "8", "9", "10", "11", "12"}
 RVersionsQuick     == {"10", "12"}
 RVersionsThorough  == {"8", "9", "10", "11", "12"}
